@@ -17,6 +17,7 @@ package main
 
 import (
 	"fmt"
+	"go/types"
 	"strings"
 )
 
@@ -105,12 +106,23 @@ func (e *Enc) Get(s *State, comp string) Term {
 					e.sc.Assert(fmt.Sprintf("(forall ((k Int)) (=> (< k %s) (= (select %s k) (select %s k))))", pn, t, p))
 				}
 			}
-			// objects allocated by the function under verification that have not been handed out yet
-			// (still private) cannot be changed by the callee
-			if s.priv != "" && strings.HasPrefix(sort, "(Array Int") && comp != "$alloc" && !strings.HasPrefix(comp, "$") {
-				p := e.Get(s.prev, comp)
-				for _, r := range e.allocRefs[:min(s.nAllo, len(e.allocRefs))] {
-					e.sc.Assert(implies(app("select", s.priv, r), eq(app("select", t, r), app("select", p, r))))
+			// objects allocated by the function under verification that are still private cannot be
+			// changed by the callee
+			if strings.HasPrefix(sort, "(Array Int") && !strings.HasPrefix(comp, "$") {
+				var p Term
+				for i := 0; i < s.nAllo && i < len(e.allocs); i++ {
+					if !allocLivesIn(e.allocs[i].comps, comp) {
+						continue
+					}
+					pv := e.Get(s.prev, e.privComp(i))
+					if pv == "false" {
+						continue
+					}
+					if p == "" {
+						p = e.Get(s.prev, comp)
+					}
+					r := e.allocs[i].ref
+					e.sc.Assert(implies(pv, eq(app("select", t, r), app("select", p, r))))
 				}
 			}
 		} else {
@@ -149,8 +161,9 @@ func (e *Enc) initComp(comp string, t Term) {
 			e.trusted["errors.New sentinels are distinct non-nil values (initialised once in the package initialiser)"] = true
 		}
 	}
-	if comp == "$priv" && strings.Contains(t, "@0") || comp == "$priv" && strings.Contains(t, "@ax") {
-		e.sc.Assert("(= " + t + " ((as const (Array Int Bool)) false))")
+	if strings.HasPrefix(comp, "$p#") {
+		// not yet allocated on this path: not private
+		e.sc.Assert(not(t))
 	}
 	if strings.HasPrefix(comp, "MD:") {
 		// the nil map has an empty domain
@@ -182,32 +195,192 @@ func (e *Enc) Set(s *State, comp string, t Term) *State {
 func (e *Enc) Havoc(s *State, mod func(string) bool) *State {
 	n := e.newState(stHavoc)
 	n.prev = s
-	n.mod = func(c string) bool { return c != "$priv" && mod(c) }
-	n.priv = e.Get(s, "$priv")
-	n.nAllo = len(e.allocRefs)
+	n.mod = func(c string) bool { return !strings.HasPrefix(c, "$p#") && mod(c) }
+	n.nAllo = len(e.allocs)
 	return n
+}
+
+// ---------------------------------------------------------------------------
+// Privacy of fresh allocations.
+//
+// Every heap allocation made by the function under verification (or an inlined callee) has a
+// Boolean state component "$p#<i>": the object is still private, i.e. no reference to it has been
+// handed to code we do not see (argument of a non-inlined call, stored into an object that is
+// not private). A callee cannot change a private object, so havocs keep its contents.
+// Static types prune which references can denote which allocation.
+
+type allocInfo struct {
+	ref   Term
+	typ   types.Type // static type of the reference (pointer/map/slice/func type)
+	comps []string   // components its contents live in (names, or prefixes ending in ".")
+}
+
+type typedRef struct {
+	t   Term
+	typ types.Type // nil: unknown (interface payload)
+}
+
+func (e *Enc) privComp(i int) string { return fmt.Sprintf("$p#%d", i) }
+
+// mayDenote: can a reference of static type t denote allocation a?
+func mayDenote(t types.Type, a *allocInfo) bool {
+	if t == nil || a.typ == nil {
+		return true
+	}
+	return types.Identical(t.Underlying(), a.typ.Underlying()) || types.Identical(t, a.typ)
+}
+
+// eqRef compares a reference term with an allocation's reference, using that distinct allocations
+// are distinct.
+func (e *Enc) eqRef(x Term, i int) Term {
+	r := e.allocs[i].ref
+	if x == r {
+		return "true"
+	}
+	if _, isAlloc := e.allocIdx[x]; isAlloc {
+		return "false"
+	}
+	if x == "0" {
+		return "false"
+	}
+	return eq(x, r)
 }
 
 // HavocLoop: like Havoc, but nothing is private any more afterwards (conservative).
 func (e *Enc) HavocLoop(s *State, mod func(string) bool) *State {
 	n := e.Havoc(s, mod)
-	return e.Set(n, "$priv", "((as const (Array Int Bool)) false)")
+	for i := range e.allocs {
+		n = e.Set(n, e.privComp(i), "false")
+	}
+	return n
 }
 
-// Leak marks the references contained in the values as no longer private.
+// Leak: the references in the values are handed out; they, and every allocation stored (directly or
+// transitively) into them, stop being private.
 func (e *Enc) Leak(s *State, vals ...Val) *State {
-	var refs []Term
+	var refs []typedRef
 	for _, v := range vals {
-		refs = e.refsOf(v, refs, 0)
+		refs = e.typedRefsOf(v, refs, 0)
 	}
-	if len(refs) == 0 {
+	return e.leakRefs(s, refs)
+}
+
+func (e *Enc) leakRefs(s *State, refs []typedRef) *State {
+	if len(refs) == 0 || len(e.allocs) == 0 {
 		return s
 	}
-	p := e.Get(s, "$priv")
-	for _, r := range refs {
-		p = app("store", p, r, "false")
+	direct := make([]Term, len(e.allocs))
+	for i := range e.allocs {
+		var dis []Term
+		for _, x := range refs {
+			if mayDenote(x.typ, &e.allocs[i]) {
+				dis = append(dis, e.eqRef(x.t, i))
+			}
+		}
+		direct[i] = or(dis...)
 	}
-	return e.Set(s, "$priv", p)
+	for i := range e.allocs {
+		hit := []Term{direct[i]}
+		for _, j := range e.containers(i) {
+			hit = append(hit, direct[j])
+		}
+		h := or(hit...)
+		if h == "false" {
+			continue
+		}
+		s = e.Set(s, e.privComp(i), and(e.Get(s, e.privComp(i)), not(h)))
+	}
+	return s
+}
+
+// containers: allocations that (transitively) contain allocation i (static, path-insensitive edges)
+func (e *Enc) containers(i int) []int {
+	seen := map[int]bool{i: true}
+	var out []int
+	stack := []int{i}
+	for len(stack) > 0 {
+		k := stack[len(stack)-1]
+		stack = stack[:len(stack)-1]
+		for _, j := range e.contEdges[k] {
+			if !seen[j] {
+				seen[j] = true
+				out = append(out, j)
+				stack = append(stack, j)
+			}
+		}
+	}
+	return out
+}
+
+// Contain: the references in v are stored into the object `target`. If both are known allocations
+// the stored one stays private as long as the container is; in every other case it is leaked.
+func (e *Enc) Contain(s *State, target Term, v Val) *State {
+	refs := e.typedRefsOf(v, nil, 0)
+	if len(refs) == 0 || len(e.allocs) == 0 {
+		return s
+	}
+	j, targetIsAlloc := e.allocIdx[target]
+	for _, x := range refs {
+		i, isAlloc := e.allocIdx[x.t]
+		if isAlloc && targetIsAlloc && i != j {
+			if e.contEdges == nil {
+				e.contEdges = map[int][]int{}
+			}
+			e.contEdges[i] = append(e.contEdges[i], j)
+			s = e.Set(s, e.privComp(i), and(e.Get(s, e.privComp(i)), e.Get(s, e.privComp(j))))
+			continue
+		}
+		// unknown relation: treat as handed out
+		s = e.leakRefs(s, []typedRef{x})
+	}
+	return s
+}
+
+// assumeNotPrivate: references read from the heap (or returned by a callee) never denote a private
+// allocation, because a reference stops being private the moment it is stored or passed out.
+func (e *Enc) assumeNotPrivate(v Val, st *State) { e.assumeNotPrivateFrom(v, st, "") }
+
+// assumeNotPrivateFrom: v was loaded from the object `base`; unless that object is itself a private
+// allocation (which may hold private references), v denotes no private allocation.
+func (e *Enc) assumeNotPrivateFrom(v Val, st *State, base Term) {
+	if len(e.allocs) == 0 {
+		return
+	}
+	basePriv := "false"
+	if base != "" && base != "0" {
+		if j, ok := e.allocIdx[base]; ok {
+			basePriv = e.Get(st, e.privComp(j))
+		} else if isAtom(base) && (strings.HasPrefix(base, "p_") || strings.HasPrefix(base, "fv_")) {
+			basePriv = "false" // parameters are never private allocations of this function
+		} else {
+			var dis []Term
+			for j := range e.allocs {
+				pj := e.Get(st, e.privComp(j))
+				if pj != "false" {
+					dis = append(dis, and(pj, eq(base, e.allocs[j].ref)))
+				}
+			}
+			basePriv = or(dis...)
+		}
+	}
+	if basePriv == "true" {
+		return
+	}
+	for _, x := range e.typedRefsOf(v, nil, 0) {
+		if _, isAlloc := e.allocIdx[x.t]; isAlloc || x.t == "0" {
+			continue
+		}
+		for i := range e.allocs {
+			if !mayDenote(x.typ, &e.allocs[i]) {
+				continue
+			}
+			p := e.Get(st, e.privComp(i))
+			if p == "false" {
+				continue
+			}
+			e.sc.Assert(implies(and(p, not(basePriv)), not(eq(x.t, e.allocs[i].ref))))
+		}
+	}
 }
 
 func (e *Enc) Merge(preds []*State, conds []Term) *State {
@@ -263,4 +436,16 @@ func (e *Enc) isLogComp(comp string) bool {
 		return false
 	}
 	return e.w.isLogName(name[:i])
+}
+
+func allocLivesIn(filters []string, comp string) bool {
+	if filters == nil {
+		return true
+	}
+	for _, f := range filters {
+		if f == comp || (strings.HasSuffix(f, ".") && strings.HasPrefix(comp, f)) {
+			return true
+		}
+	}
+	return false
 }
